@@ -120,6 +120,8 @@ SameDescribed(a, b) == a.len = b.len /\ a.nblocks = b.nblocks /\ a.types = b.typ
 TwoBuildViol(ev) ==
     IF ev.refBroken THEN {} ELSE
     V(ev.ref.rc = ev.cur.rc, "SameLoadResult")
+    \* a file one of the builds wrote is a file that build loads
+    \cup V((ev.writer = "cur" => ev.cur.rc = 0) /\ (ev.writer = "ref" => ev.ref.rc = 0), "WriterLoadsItsOwnFile")
     \cup (IF ev.ref.rc # 0 \/ ev.cur.rc # 0 THEN {}
           ELSE V(SameDescribed(ev.ref.out, ev.cur.out), "SameReEncoding")
                \* ... and both took the bytes for the same fields: the multiset of (kind, size, value) each build writes
